@@ -753,8 +753,10 @@ def prev_chain_file_start(kinds, nxt, start):
 
 
 # ------------------------------------------------------------------------------------------
-# known finding C04-objstm-shared-offsets: the index of an object stream names the same offset again and again; every
-# pair parses -- and keeps -- the object that starts there: pairs * |object| bytes from an index of 5 bytes per pair
+# C04-objstm-shared-offsets (FIXED in /repo: ObjectStream::new charges every member and stops at MAX_MEMBER_OVERLAP * |content|):
+# the index of an object stream names the same offset again and again; every pair parsed -- and kept -- the object that
+# starts there: pairs * |object| bytes from an index of 5 bytes per pair.  The files stay in the case list: they must load
+# (without the members) inside the worker's limits now.  No known-finding class is left for this property.
 # ------------------------------------------------------------------------------------------
 def objstm_shared_offsets_file(npairs=5000, big=300000):
     idx = b''.join(b'%d 0 ' % (i + 10) for i in range(npairs))
@@ -765,48 +767,24 @@ def objstm_shared_offsets_file(npairs=5000, big=300000):
     return pdf_classic(objs)
 
 
-def shared_offsets(index_block):
-    """the class predicate (mirrors KnownSharedOffsets in coq/Model/SafeObjStm.v): the offsets of the index pairs do not
-    strictly increase"""
-    nums = []
-    for t in re.split(rb'[\s\x00]+', index_block):
-        if t:
-            try:
-                nums.append(int(t))
-            except ValueError:
-                nums.append(None)
-    offs = [nums[i + 1] for i in range(0, len(nums) - 1, 2) if nums[i] is not None and nums[i + 1] is not None]
-    return any(b <= a for a, b in zip(offs, offs[1:]))
-
-
-def classify(line, tags, model_out, impl_out, verdict):
-    """known-finding class, decided on the INPUT: C04-objstm-shared-offsets = a file (or an objstm case) with an object stream
-    whose index offsets do not strictly increase"""
-    try:
-        kind = line.split(' ', 2)[1]
-        if kind in ('load', 'incload', 'loadtext'):
-            b = bytes.fromhex(''.join(re.findall(r'x([0-9a-f]+)', line)))
-            for m in re.finditer(rb'<<(?:(?!endobj).)*?/ObjStm(?:(?!endobj).)*?>>\s*stream\r?\n', b, re.S):
-                d = m.group(0)
-                first = re.search(rb'/First\s+(\d+)', d); ln = re.search(rb'/Length\s+(\d+)', d)
-                if not first or not ln:
-                    continue
-                data = b[m.end():m.end() + int(ln.group(1))]
-                if b'FlateDecode' in d:
-                    try:
-                        data = zlib.decompressobj().decompress(data, 1 << 26)
-                    except zlib.error:
-                        continue
-                if shared_offsets(data[:int(first.group(1))]):
-                    return 'C04-objstm-shared-offsets'
-        elif kind == 'objstm':
-            first = re.search(r'\(x4669727374 \(i (\d+)\)\)', line)
-            content = bytes.fromhex(''.join(re.findall(r'x([0-9a-f]+)', line.split('))) ', 1)[-1])))
-            if first and shared_offsets(content[:int(first.group(1))]):
-                return 'C04-objstm-shared-offsets'
-    except Exception:
-        return None
-    return None
+def objstm_overlap_file(kind, npairs=4000, big=200000):
+    """further shapes of members that share bytes: distinct offsets inside one long run of nested brackets / inside one
+    long string, and offsets where NO object starts (every run fails after reading the rest)"""
+    if kind == 'fail':          # an unterminated array: every run reads to the end and fails
+        body = b'[' + b'0 ' * (big // 2)
+        idx = b''.join(b'%d 0 ' % (i + 10) for i in range(npairs))
+    elif kind == 'stairs':      # increasing offsets, each inside the array that starts at the one before
+        depth = 14
+        body = b'[' * depth + b'0 ' * (big // 2) + b']' * depth
+        idx = b''.join(b'%d %d ' % (i + 10, i % depth) for i in range(npairs))
+    else:                       # 'tail': offsets walk through a long run of numbers, each run is short
+        body = b'0 ' * (big // 2)
+        idx = b''.join(b'%d %d ' % (i + 10, 2 * i) for i in range(npairs))
+    plain = idx + body
+    data = zlib.compress(plain, 9)
+    objs = [(1, b'<</Type/Catalog/Pages 2 0 R>>'), (2, b'<</Type/Pages/Kids[]/Count 0>>'),
+            (3, b'<</Type/ObjStm/N %d/First %d/Filter/FlateDecode/Length %d>>stream\n' % (npairs, len(idx), len(data)) + data + b'\nendstream')]
+    return pdf_classic(objs)
 
 
 def gen_cases(rng, tier):
@@ -897,8 +875,10 @@ def gen_cases(rng, tier):
             add(case('loadtext', XB(pdf_with_tounicode(cm, text, clen))), 'loadtext-arrayfamily')
     for k, line in nesting_boundary():
         add(line, k + '-nestboundary')
-    add(case('load', XB(objstm_shared_offsets_file(1000, 100000))), 'load-objstm-shared')       # 100 MB: below the cap
-    add(case('load', XB(objstm_shared_offsets_file())), 'load-objstm-shared')                     # 1.5 GB: the known finding
+    add(case('load', XB(objstm_shared_offsets_file(1000, 100000))), 'load-objstm-shared')       # before the repair: 100 MB
+    add(case('load', XB(objstm_shared_offsets_file())), 'load-objstm-shared')                     # before the repair: 1.5 GB (abort)
+    for kind in ('fail', 'stairs', 'tail'):
+        add(case('load', XB(objstm_overlap_file(kind))), 'load-objstm-shared')
     for b in tiny_tail_family():
         add(case('load', XB(b)), 'load-tinytail')
     for b in encrypt_family():
@@ -938,13 +918,12 @@ def compare(model_out, impl_out):
 
 
 SPEC = {
-    'gen_parts': ['Filters', 'Lex', 'CMapC', 'Tables'],
+    'gen_parts': ['Filters', 'Lex', 'CMapC', 'Tables', 'ObjStmC'],
     'allowed_axioms': (),
     'runner': 'c04',
     'bin': 'c04',
     'gen_cases': gen_cases,
     'compare': compare,
-    'classify': classify,
     'rule': 'per entry point grammar-directed inputs (ASCII85 alphabets and group edges; predictor geometry and decode_frame with every '
             'numeric extreme; content streams with operands nested 1..20000 deep, inline images with W/H/BPC extremes; object streams '
             'with N/First/index extremes and deep members; cross-reference streams with W/Index/Size extremes; text strings with marks, '
@@ -973,8 +952,8 @@ SPEC = {
                     'the absence of panics and the sufficiency of every fuel; it cannot exhibit panics inside nom, flate2, weezl, encoding_rs, '
                     'stringprep, rangemap (assumed total), the real stack limit and allocator (approximated by depth/alloc annotations; '
                     'measured in a release and, for the nesting boundary, a debug worker), wall-clock time; not proved: an allocation bound '
-                    'for the composed loader, the Encrypt branch of read. Open known finding: C04-objstm-shared-offsets (an object stream '
-                    'index that repeats an offset multiplies memory and time: quadratic).',
+                    'for the composed loader, the Encrypt branch of read. No open known finding (C04-objstm-shared-offsets is '
+                    'repaired: the work of one object stream is linear, C04_objstm_work).',
     'impl_timeout': 2400,
     'model_timeout': 2400,
 }
@@ -1037,8 +1016,8 @@ MANIFEST = {
                   'entry points, and for Reader::read (on the models of C01, C02, C14) the absence of panics and the sufficiency of every '
                   'fuel; it cannot exhibit panics inside nom, flate2, weezl, encoding_rs, stringprep, rangemap (assumed total), '
                   'the real stack limit and allocator (approximated by depth/alloc annotations), wall-clock time; not proved: an '
-                  'allocation bound for the composed loader, the Encrypt branch of read. Open known finding: C04-objstm-shared-offsets '
-                  '(an object stream index that repeats an offset multiplies memory and time: quadratic).',
+                  'allocation bound for the composed loader, the Encrypt branch of read. No open known finding '
+                  '(C04-objstm-shared-offsets is repaired: the work of one object stream is linear, C04_objstm_work).',
     'technique': 'Coq proof (outcome/cost monad, induction over loops and fuel, progress lemmas for the grammar, pigeonhole for the Prev loop, '
                  'lia per panic site) + outcome-class correspondence with an isolated worker process (timeout, 2 MiB stack, counting '
                  'allocator; release profile, and debug profile for the nesting boundary)',
